@@ -1,9 +1,9 @@
-\* C15 quick+thorough: depth 2, width 2, 3 leaf kinds, look-alike keys and an int key
+\* C15 quick+thorough: depth 2, width 2, 3 leaf kinds, full and partial look-alike keys
 SPECIFICATION Spec
 CONSTANTS
   D = 2
   Leaves = {"int", "bool", "date"}
-  Keys = {"t", "v", "#int"}
+  Keys = {"a", "t", "v"}
   MaxW = 2
   MaxK = 2
   MaxB = 1
@@ -17,3 +17,4 @@ INVARIANT InvNoDecodeError
 INVARIANT InvPlainIffPrimitive
 INVARIANT InvEveryNestedWrapped
 INVARIANT InvKnownIsReal
+INVARIANT InvKnownOnlyKeys
